@@ -9,6 +9,7 @@ import gc
 import hashlib
 import json
 import pickle
+import threading
 import traceback
 
 from . import spec as S
@@ -88,6 +89,7 @@ class Z3Seam:
         self.plan = {}  # (op_index, nth) -> (kind, phase)   nth is 1-based
         self.fired = []
         self.on_check = None  # optional callback(solver)  (C20 confinement monitor / scheduler boundary)
+        self.per_thread = None  # C20: thread ident -> that thread's seam
 
     def install(self):
         """Substitute z3.Solver.check/reason_unknown ONCE per process; the substituted functions dispatch to the
@@ -109,6 +111,8 @@ class Z3Seam:
             seam = _CURRENT_SEAM
             if seam is None or slf.ctx is refctx:
                 return orig_check(slf, *assumptions)
+            if seam.per_thread is not None:
+                seam = seam.per_thread.get(threading.get_ident(), seam)
             seam.total += 1
             seam.op_checks += 1
             if seam.on_check is not None:
@@ -240,6 +244,8 @@ class Machine:
     def call(self, fn, *a, **k):
         try:
             return ("ok", fn(*a, **k))
+        except Violation:
+            raise  # raised by a monitor of ours below claripy (e.g. the context-confinement monitor)
         except self.errors.UnsatError as e:
             return ("unsat", e)
         except KeyboardInterrupt as e:
